@@ -37,8 +37,10 @@ def w_hier(case):
     objs = [('likelihood', hl)]
     nt = rp.n_top(case['spec'], case['n_ids'])
     nb = rp.n_bottom(case['spec'], case['n_ids'])
-    post = chi.HierarchicalLogPosterior(hl, hier.build_prior(nt))
-    objs.append(('posterior', post))
+    if nt > 0:
+        # (no prior exists over zero population-level parameters)
+        post = chi.HierarchicalLogPosterior(hl, hier.build_prior(nt))
+        objs.append(('posterior', post))
     for name, o in objs:
         lists_are_copies(viol, 'hierarchical ' + name, o.get_parameter_names,
                          o.get_id, lambda: o.get_parameter_names(include_ids=True))
@@ -47,7 +49,10 @@ def w_hier(case):
         named = list(o.get_parameter_names(include_ids=True))
         ids = list(o.get_id())
         facts = {'n_parameters': n, 'n_names': len(names), 'n_ids': len(ids),
-                 'n_named': len(named)}
+                 'n_named': len(named),
+                 'n_top': o.n_parameters(exclude_bottom_level=True),
+                 'n_top_names': len(o.get_parameter_names(
+                     exclude_bottom_level=True))}
         try:
             s, g = o.evaluateS1(x.copy())
             facts['n_grad'] = len(g)
@@ -56,7 +61,8 @@ def w_hier(case):
             facts['n_grad'] = 'raise:%s' % type(e).__name__
             facts['accepts'] = False
         exp = {'n_parameters': nb + nt, 'n_names': nb + nt, 'n_ids': nb + nt,
-               'n_named': nb + nt, 'n_grad': nb + nt, 'accepts': True}
+               'n_named': nb + nt, 'n_grad': nb + nt, 'accepts': True,
+               'n_top': nt, 'n_top_names': nt}
         if facts != exp:
             viol.append({'sub': 'agree', 'message': 'counts / names / IDs / vector / '
                          'gradient lengths disagree on the hierarchical %s (%s)'
@@ -555,6 +561,48 @@ def w_objects(case):
                              'observed': ids_u, 'behaviour': 'relabel'})
             agree('hierarchical likelihood from relabelled log-likelihoods',
                   hl.n_parameters(), hl.get_parameter_names())
+    elif kind == 'user_red_em':
+        user = chi.ReducedErrorModel(
+            chi.ConstantAndMultiplicativeGaussianErrorModel())
+        user.fix_parameters({case['pre']: 0.25})
+        if case['obj'] == 'll':
+            o = chi.LogLikelihood(ToyModel(2, 1), [user], [1.0, 2.0], [0.2, 0.9])
+            names_f, n_f = o.get_parameter_names, o.n_parameters
+        elif case['obj'] == 'pred':
+            o = chi.PredictiveModel(ToyModel(2, 1), [user])
+            names_f, n_f = o.get_parameter_names, o.n_parameters
+        else:
+            c_ = chi.ProblemModellingController(ToyModel(2, 1), [user])
+            c_.set_data(pd.DataFrame({'ID': [1, 1], 'Time': [0.3, 1.1],
+                                      'Observable': ['o0'] * 2,
+                                      'Value': [1.3, 2.1]}))
+            c_.set_log_prior(pints.ComposedLogPrior(*[
+                pints.GaussianLogPrior(1, 2) for _ in range(c_.get_n_parameters())]))
+            o = c_.get_log_posterior()
+            names_f, n_f = o.get_parameter_names, o.n_parameters
+        n_before = n_f()
+        for op in case['ops']:
+            user.fix_parameters(dict([op]))
+        n = n_f()
+        if n != n_before or n != 3:
+            viol.append({'sub': 'user_red_em', 'message': 'the number of parameters '
+                         'of a %s built from a reduced user error model changed '
+                         'when the user re-configured that model' % case['obj'],
+                         'expected': 3, 'observed': [n_before, n],
+                         'behaviour': 'obj_agree'})
+        x = np.array([0.9, 0.6, 0.4])
+        if case['obj'] == 'pred':
+            agree('predictive model from a reduced user error model', n, names_f())
+            smp = o.sample(x, [0.3, 0.9], n_samples=1, seed=1, return_df=False)
+            if np.shape(smp) != (1, 2, 1):
+                viol.append({'sub': 'user_red_em', 'message': 'predictive model '
+                             'cannot sample a vector of its reported length',
+                             'expected': [1, 2, 1], 'observed': list(np.shape(smp)),
+                             'behaviour': 'obj_agree'})
+        else:
+            s_, g_ = o.evaluateS1(x)
+            agree('%s from a reduced user error model' % case['obj'], n, names_f(),
+                  np.isfinite(o(x)), len(g_))
     elif kind == 'shared_em':
         # one error model instance given for several outputs
         em = chi.GaussianErrorModel() if case['em'] == 'G' else \
@@ -767,6 +815,17 @@ def build(tier, seed):
                     c_ = hier.make_case(spec, n_ids, seed)
                     c_['early'] = True
                     hc.append(c_)
+    # reduced models ALL of whose population parameters are fixed (no population-
+    # level entry is left), and all but one
+    for base in (rp.G(3), rp.Comp([rp.LN(1), rp.G(2, False)]),
+                 rp.Comp([rp.G(1), rp.LN(1), rp.TG(1)])):
+        for n_ids in (1, 2):
+            full = popvals.top_values(base, n_ids, seed, positive=True)
+            n_t = rp.n_top(base, n_ids)
+            hc.append(hier.make_case(rp.Red(base, {i_: full[i_] for i_ in range(n_t)}),
+                                     n_ids, seed))
+            hc.append(hier.make_case(
+                rp.Red(base, {i_: full[i_] for i_ in range(1, n_t)}), n_ids, seed))
     if tier == 'thorough':
         # 4-dimensional bottom level (two-parameter error model)
         for spec in hier.structures(4, hier.KINDS6):
@@ -802,6 +861,15 @@ def build(tier, seed):
             for second in ([0, 1], [1, 2], [2, 0], [1, 0, 2], [2, 1, 0]):
                 objs.append({'kind': 'relabel', 'ids': ids_, 'first': first,
                              'second': second, 'ops': []})
+    # (the controller takes plain error models only)
+    for obj in ('ll', 'pred'):
+        for pre, others in (('Sigma rel.', [('Sigma base', 0.4), ('Sigma rel.', 0.9),
+                                            ('Sigma rel.', None)]),
+                            ('Sigma base', [('Sigma rel.', 0.3), ('Sigma base', None)])):
+            for r_ in (1, 2):
+                for ops in itertools.permutations(others, r_):
+                    objs.append({'kind': 'user_red_em', 'obj': obj, 'pre': pre,
+                                 'ops': [list(o_) for o_ in ops]})
     for obj in ('ll', 'pred', 'ctrl'):
         for em in ('G', 'CM'):
             for k in (2, 3):
@@ -844,6 +912,15 @@ def build(tier, seed):
             objs.append({'kind': 'mech', 'ops': [list(o) for o in seq]})
             objs.append({'kind': 'mech', 'ops': [list(o) for o in seq]
                          + [['red', 1]]})
+    # fixed parameters, sensitivities and a change of outputs in every order
+    for i_fix in (0, 2):
+        for out_ in (['global.tumour_volume'],
+                     ['central.drug_concentration', 'global.tumour_volume']):
+            for seq in itertools.permutations(
+                    [['red', i_fix], ['sens', True], ['out', out_]]):
+                objs.append({'kind': 'mech', 'ops': [list(o) for o in seq]})
+                objs.append({'kind': 'mech', 'ops': [list(o) for o in seq]
+                             + [['sens', True]]})
     # renamed parameters, fixed parameters and sensitivities in every order
     for i_ren in (0, 1, 3):
         for i_fix in (0, 2):
